@@ -134,7 +134,9 @@ class CGen:
 
     def simple_stmt(self, d, allow_decl=True):
         ch = self.ch
-        k = ch.weighted([("assign", 8), ("decl", 3 if allow_decl else 0), ("post", 1)], "ss")
+        k = ch.weighted([("assign", 8), ("decl", 3 if allow_decl else 0), ("post", 1), ("return", 1)], "ss")
+        if k == "return":
+            return ("return", self.expr(d))
         if k == "assign":
             return ("expr", self.assignment(d))
         if k == "decl":
@@ -258,7 +260,10 @@ class CGen:
     def show_stmt(self, s, brace_all_ifs=False):
         k = s[0]
         if k == "expr":
-            return self.show(s[1]) + self.sp() + ";"
+            body = self.show(s[1])
+            if self.ch.draw(4, "stmt-parens") == 0:
+                body = "(" + self.sp() + body + self.sp() + ")"        # a parenthesised expression statement is the same statement
+            return body + self.sp() + ";"
         if k == "decl":
             if s[3] is None:
                 return f"{s[1]} {s[2]};"
@@ -286,6 +291,9 @@ class CGen:
             return f"mem_store_{s[1]}{s[2]}({self.show(s[3])}, {self.show(s[4])});"
         if k == "jump":
             return "JUMP(" + self.show(s[1]) + ");"
+        if k == "return":
+            e = self.show(s[1])
+            return "return" + (self.sp() if e[:1] == "(" else " ") + e + self.sp() + ";"
         raise ValueError(s)
 
 
@@ -311,6 +319,8 @@ def norm_stmt(s):
         return ("store", s[1], s[2], norm_expr(s[3]), norm_expr(s[4]))
     if k == "jump":
         return ("jump", norm_expr(s[1]))
+    if k == "return":
+        return ("return", norm_expr(s[1]))
     return s
 
 
@@ -443,6 +453,8 @@ def conv_stmt(c):
         j = ch[0]
         if _is_tree(j, "jump"):
             return ("jump", conv_expr(j[2][1]))
+        if isinstance(j, list) and j[0] == "t" and j[1] == "RETURN" and len(ch) == 2:
+            return ("return", conv_expr(ch[1]))
         raise ConvError("jump_stmt shape")
     if d == "expr_stmt":
         return ("empty",)
@@ -483,6 +495,8 @@ def strip_empty(s):
         return ("store", s[1], s[2], strip_expr(s[3]), strip_expr(s[4]))
     if k == "jump":
         return ("jump", strip_expr(s[1]))
+    if k == "return":
+        return ("return", strip_expr(s[1]))
     return s
 
 
